@@ -3,6 +3,7 @@ package main
 import (
 	"fmt"
 	"go/ast"
+	"go/constant"
 	"go/token"
 	"go/types"
 	"sort"
@@ -154,6 +155,95 @@ func ruleMPTReader(c *Ctx) {
 		})
 	}
 	c.Floor("suffix writers", nsfx, 2)
+	rcSuffixReadersAgree(c)
+}
+
+// rcSuffixReadersAgree: two more places where the layout of the suffix is written down. (a) A loader that hands a
+// record on as the node's serialisation cuts the five bytes off exactly when the records have them - under the
+// predicate the writers append them under, TrieMode.RC(); guarded by another predicate (GC() holds for a subset of
+// the RC modes only) a ModeLatest trie caches node bytes with the suffix, and every proof built from nodes that a
+// traversal loaded fails to verify. (b) The counter is four bytes: it is read with a 32-bit read of the last four
+// bytes, never as the single byte at len-4 (a node referenced 257 times would be stored back with count 2, and
+// flagged inactive after two removals while 255 references still point at it).
+func rcSuffixReadersAgree(c *Ctx) {
+	pk := c.P.Pkg(mptPkg)
+	if pk == nil {
+		return
+	}
+	info := pk.TypesInfo
+	ncut, nread := 0, 0
+	for _, fd := range c.P.AllFuncDecls() {
+		if fd.Pkg != pk || fd.Decl.Body == nil {
+			continue
+		}
+		f := c.P.NewFuncCFG(fd)
+		// len(x)-k as the linear form of an index/bound over x
+		tailOff := func(of ast.Expr, e ast.Expr) (int64, bool) {
+			be, ok := ast.Unparen(e).(*ast.BinaryExpr)
+			if !ok || be.Op != token.SUB {
+				return 0, false
+			}
+			call, ok := ast.Unparen(be.X).(*ast.CallExpr)
+			if !ok || f.calleeSym(call) != "builtin.len" || len(call.Args) != 1 || !sameExpr(info, call.Args[0], of) {
+				return 0, false
+			}
+			tv, ok := info.Types[be.Y]
+			if !ok || tv.Value == nil {
+				return 0, false
+			}
+			v, ok := constant.Int64Val(constant.ToInt(tv.Value))
+			return v, ok
+		}
+		var stack []ast.Node
+		ast.Inspect(fd.Decl.Body, func(n ast.Node) bool {
+			if n == nil {
+				stack = stack[:len(stack)-1]
+				return true
+			}
+			stack = append(stack, n)
+			switch x := n.(type) {
+			case *ast.SliceExpr:
+				// x[:len(x)-5]: the cut
+				if x.Low == nil && x.High != nil {
+					if k, ok := tailOff(x.X, x.High); ok && k == 5 {
+						ncut++
+						guard := ""
+						for i := len(stack) - 2; i >= 0 && guard == ""; i-- {
+							if is, ok := stack[i].(*ast.IfStmt); ok {
+								guard = types.ExprString(is.Cond)
+								if f.DirectMentions(is.Cond)["pkg/core/mpt.(TrieMode).RC"] {
+									guard = "RC"
+								}
+							}
+						}
+						key := fmt.Sprintf("rc-suffix.cut.%s#%d", shortSym(FuncKey(fd.Obj)), ncut)
+						if guard == "RC" {
+							c.OK(key, c.P.Pos(x.Pos()), "the suffix is cut off exactly in the modes whose records carry it")
+						} else {
+							c.Fail(key, c.P.Pos(x.Pos()), fmt.Sprintf("%s cuts the reference-count suffix off a stored record under `%s`, not under TrieMode.RC(), the predicate the writers append it under: in a mode where the two differ (ModeLatest: counted but not garbage collected) the node keeps the five bytes in the serialisation it caches, and every proof that contains a node loaded this way fails to verify", FuncKey(fd.Obj), guard))
+						}
+					}
+				}
+			case *ast.IndexExpr:
+				if k, ok := tailOff(x.X, x.Index); ok && k >= 1 && k <= 4 {
+					nread++
+					c.Fail(fmt.Sprintf("rc-suffix.width.%s#%d", shortSym(FuncKey(fd.Obj)), nread), c.P.Pos(x.Pos()), fmt.Sprintf("%s takes the single byte `%s` of a stored record: the last four bytes are the reference counter, a 32-bit little-endian number - read one byte at a time a node referenced more than 255 times is stored back with a small count, and is flagged inactive (invisible in GC mode) while references still point at it", FuncKey(fd.Obj), types.ExprString(x)))
+				}
+			case *ast.CallExpr:
+				if strings.HasSuffix(f.calleeSym(x), "Uint32") && len(x.Args) == 1 {
+					if sl, ok := ast.Unparen(x.Args[0]).(*ast.SliceExpr); ok && sl.High == nil && sl.Low != nil {
+						if k, ok := tailOff(sl.X, sl.Low); ok && k == 4 {
+							nread++
+							c.OK(fmt.Sprintf("rc-suffix.width.%s#%d", shortSym(FuncKey(fd.Obj)), nread), c.P.Pos(x.Pos()), "the counter is read as the 32-bit number in the last four bytes")
+						}
+					}
+				}
+			}
+			return true
+		})
+	}
+	c.Floor("cuts of the reference-count suffix", ncut, 2)
+	c.Floor("reads of the stored reference counter", nread, 2)
 }
 
 func ruleRCWriters(c *Ctx) {
